@@ -338,6 +338,8 @@ pub fn run_witness(seed: u64, count: usize, cases: &mut Vec<Value>, out: &mut Ve
             }
         }
     };
+    #[allow(clippy::type_complexity)]
+    let mut prev: Option<(BigUint, BigUint, BigUint, Vec<BigUint>, Vec<u64>, u64, u64)> = None;
     for id in 0..count {
         let lim: u64 = [1u64, 2, 100, 255, 256, 65535, 65536][r.gen_range(0..7)];
         let mid: u64 = match r.gen_range(0..4) { 0 => 0, 1 => lim - 1, _ => r.gen_range(0..lim) };
@@ -346,10 +348,30 @@ pub fn run_witness(seed: u64, count: usize, cases: &mut Vec<Value>, out: &mut Ve
         let mid_v = if bad && id % 24 == 11 { lim } else { mid };
         let bits: Vec<u64> = (0..20).map(|k| if bad && id % 24 == 23 && k == 7 { 2 } else { match id % 5 { 0 => 0, 1 => 1, 2 => (k % 2) as u64, _ => r.gen_range(0..2) } }).collect();
         let mut inputs = serde_json::Map::new();
-        let s = special(&mut r);
-        let x = special(&mut r);
-        let e = special(&mut r);
-        let path: Vec<BigUint> = (0..20).map(|_| special(&mut r)).collect();
+        let mut s = special(&mut r);
+        let mut x = special(&mut r);
+        let mut e = special(&mut r);
+        let mut path: Vec<BigUint> = (0..20).map(|_| special(&mut r)).collect();
+        let (mut lim, mut mid_v, mut bits) = (lim, mid_v, bits);
+        // histories: every fourth assignment is derived from the one evaluated just before it - the same values in
+        // other places (two path elements swapped, direction bits rotated, x and the external nullifier exchanged)
+        // or the very same assignment again - so that state kept between evaluations would show
+        if id % 4 == 3 && !bad {
+            if let Some((ps, px, pe, ppath, pbits, plim, pmid)) = prev.clone() {
+                s = ps; x = px; e = pe; path = ppath; bits = pbits; lim = plim; mid_v = pmid;
+                match (id / 4) % 4 {
+                    0 => {
+                        let i = r.gen_range(0..20usize);
+                        let j = (i + 1 + r.gen_range(0..19usize)) % 20;
+                        path.swap(i, j);
+                    }
+                    1 => bits.rotate_left(1 + r.gen_range(0..18usize)),
+                    2 => std::mem::swap(&mut x, &mut e),
+                    _ => {}
+                }
+            }
+        }
+        prev = Some((s.clone(), x.clone(), e.clone(), path.clone(), bits.clone(), lim, mid_v));
         inputs.insert("identitySecret".into(), json!([s.to_string()]));
         inputs.insert("userMessageLimit".into(), json!([lim.to_string()]));
         inputs.insert("messageId".into(), json!([mid_v.to_string()]));
